@@ -89,6 +89,15 @@ def perturb_opt(rng, lp, cs, rs, x, y, n_max=24):
     l2 = lp.copy()
     l2.sense = "max" if lp.sense == "min" else "min"
     cand.append(("objsense", l2, cs, rs, x, y))
+    # directed: a non-basic column sitting at 0 is declared free (the point stays feasible; whether it stays optimal
+    # depends only on that column's reduced cost being zero) - always kept
+    directed = []
+    for j in range(nc):
+        if cs[j] != "1" and x[j] == 0:
+            l2 = lp.copy()
+            l2.cols[j][1], l2.cols[j][2] = NINF, INF
+            directed.append(("col%d.free" % j, l2, cs[:j] + "3" + cs[j + 1:], rs, x, y))
+    out = out + directed[:4]
     # logical entries of p_sol are arbitrary input
     if nr:
         cand.append(("logical-garbage", lp, cs, rs, x[:nc] + [F(rng.rint(-9, 9)) for _ in range(nr)], y))
